@@ -12,7 +12,8 @@ BUDGET = {
 MANIFEST = {
     'engine': 'ledger-sim',
     'level': 'exploration',
-    'text': 'Seeded search over chain histories and 18 spend-forgery kinds (missing/spent/other-fork/same-block outputs, repeated references, wrong key, altered outputs or inputs after signing, swapped signatures, placeholders) built on any stored parent, each sealed with valid merkle root, evidence and proof of work so it reaches the spend rules; accepted blocks are re-judged by an independent ledger replay with its own ECDSA verification over its own blanked-transaction message; receiver state is fingerprinted before/after each rejection. Sampling, not proof.',
+    'text': 'Seeded search over chain histories and 18 spend-forgery kinds (missing/spent/other-fork/same-block outputs, repeated references, wrong key, altered outputs or inputs after signing, swapped signatures, placeholders) built on any stored parent, each sealed with valid merkle root, evidence and proof of work so it reaches the spend rules; accepted blocks are re-judged by an independent ledger replay with its own ECDSA verification over its own blanked-transaction message; receiver state is fingerprinted before/after each rejection. Sampling, not proof.'
+            ' Forgeries include the all-zero key spent with a crafted signature and conflicting spends that are not neighbours in the block; honest rewards may be split over several outputs, some worth nothing.',
     'note': 'Trusted: reference ledger/rules, python-ecdsa, repo serializers as tools, scrypt stand-in, hollow base.',
 }
 
